@@ -39,6 +39,31 @@ theorem year_two_digit (ts : Ts) (k : Tok) (y : Int) (hy : grpInt k "year" = .ok
   simp only [ruleYear, hy, h, if_true, bind, Except.bind, pure, Except.pure]
   split <;> rfl
 
+/-- numeric dd.mm. / mm/dd without a year: day and month are the written numbers, no year is invented, whatever the reference time
+(both notations share one production; which group is the day is decided by the pattern) -/
+theorem ddmm_sem (ts : Ts) (k : Tok) (d m : Int) (hd : grpInt k "day" = .ok d) (hm : grpInt k "month" = .ok m) (hmon : k.has "month" = true) :
+    applyId .ruleDDMM ts [.tok k] = .ok (some (.time { month := some m, day := some d })) ∧
+    applyId .ruleMMDD ts [.tok k] = .ok (some (.time { month := some m, day := some d })) := by
+  have h1 : applyId .ruleDDMM ts [.tok k] = ruleDDMM k := rfl
+  have h2 : applyId .ruleMMDD ts [.tok k] = ruleDDMM k := rfl
+  rw [h1, h2]
+  constructor <;> simp [ruleDDMM, monthOf, hmon, hd, hm, bind, Except.bind, pure, Except.pure]
+
+/-- day + named month, month + day, day-of-year + year: the written fields are copied, nothing else is set -/
+theorem domMonth_sem (ts : Ts) (dom mo : Time) :
+    applyId .ruleDOMMonth ts [.time dom, .time mo] = .ok (some (.time { day := dom.day, month := mo.month })) ∧
+    applyId .ruleMonthDOM ts [.time mo, .time dom] = .ok (some (.time { month := mo.month, day := dom.day })) := ⟨rfl, rfl⟩
+theorem doyYear_sem (ts : Ts) (doy y : Time) :
+    applyId .ruleDOYYear ts [.time doy, .time y] = .ok (some (.time { year := y.year, month := doy.month, day := doy.day })) := rfl
+
+/-- 24-hour clock notation hh:mm without am/pm: hour and minute are the written numbers -/
+theorem hhmm_sem (ts : Ts) (k : Tok) (h mi : Int) (hh : grpInt k "hour" = .ok h) (hm : grpInt k "minute" = .ok mi) (hmin : k.has "minute" = true)
+    (hno : k.group "ampm" = none) :
+    applyId .ruleHHMM ts [.tok k] = .ok (some (.time { hour := some h, minute := some mi })) := by
+  have h1 : applyId .ruleHHMM ts [.tok k] = ruleHHMM k := rfl
+  rw [h1]
+  simp [ruleHHMM, minuteOr0, hmin, hh, hm, hno, applyAmPm, bind, Except.bind, pure, Except.pure]
+
 /-- date + clock time compose field-wise (also C20) -/
 theorem dateTOD_sem (date tod : Time) :
     ruleDateTOD date tod = .ok (some (.time { year := date.year, month := date.month, day := date.day, hour := tod.hour, minute := tod.minute })) := rfl
